@@ -11,9 +11,9 @@ Section Spec.
   Definition resolves (ns : list name) (v : name) : bool := existsb (same (attr v)) ns.
 
   Definition arg_name (a : selarg) : name :=
-    match a with SStr x | SCol x => attr x | SAlias _ al => al end.
+    match a with SStr x | SCol x | SItem x => attr x | SAlias _ al => al end.
   Definition arg_ref (a : selarg) : name :=
-    match a with SStr x | SCol x | SAlias x _ => x end.
+    match a with SStr x | SCol x | SAlias x _ | SItem x => x end.
 
   Fixpoint find_same (v : name) (ns : list name) : option name :=
     match ns with
@@ -40,7 +40,8 @@ Section Spec.
         else None
     | OFillna _ | ODropna | ODropDuplicates _ | OLimit | ODistinct => Some ns
     | OWhere v => if resolves ns v then Some ns else None
-    | OOrderBy vs => if forallb (resolves ns) vs then Some ns else None
+    | OOrderBy vs | OOrderByItems vs => if forallb (resolves ns) vs then Some ns else None
+    | OJoinOn rn l r => if resolves ns l && resolves rn r then Some (ns ++ rn) else None
     end.
 
   Fixpoint spec_run (ns : list name) (ops : list op) : option (list name) :=
